@@ -714,6 +714,11 @@ impl UseTree {
                 let mut result = vec![];
                 for nested_use_tree in list {
                     for flattened in &mut nested_use_tree.clone().flatten(import_granularity) {
+                        // An empty nested list (`c::{}`) imports nothing: gluing the prefix
+                        // onto it would import the prefix itself.
+                        if flattened.path.is_empty() {
+                            continue;
+                        }
                         let mut new_path = prefix.to_vec();
                         new_path.append(&mut flattened.path);
                         result.push(UseTree {
